@@ -301,6 +301,9 @@ func SetDial(conn any) {}
 // StubResult reports what an engine stub last returned (engine only; -1 natively).
 func StubResult(name string) int { return -1 }
 
+// StubCount reports how many times the named stub ran on this path (engine only).
+func StubCount(name string) int { return 0 }
+
 // ---------------------------------------------------------------------------
 // Independent NBT grammar reference (shared by the nbt and dynbt harnesses).
 
